@@ -22,6 +22,7 @@ func main() {
 	}
 	r := hx.NewRng(run.Seed)
 	meshgen.FixedCases(run)
+	meshgen.FixedGens(run)
 	// one third generator cases, two thirds operation histories
 	ngen := run.N / 3
 	if run.Tier != "thorough" && ngen > 260 {
